@@ -6,32 +6,30 @@
    notifs_exact); Model/StateNotify.v (x_op, xrun: the listener lists, SingleObservers, _closing_deferred
    callback lists and the unanswered close commands on top of the C07 model).
 
-   FULL STATEMENT (the Spec oracle is its executable form):
+   FULL STATEMENT (the Spec oracle is its executable form), proved as C08_oracle with no hypothesis beyond
+   legality of the history:
      forall rts ops, legal8 ops = true -> exists tr, xrun rts ops = Some tr /\ oracle8 ops tr = true.
-   It is FALSE of the faithful model (and of the code) on two input classes, the open findings C08-F1
-   (Stream.close() after the stream was reported CLOSED/FAILED never completes) and C08-F2 (Circuit.close()
-   on a circuit reported FAILED: an earlier close() still waiting for its acknowledgement is re-chained and
-   never completes): C08_stream_close_after_gone_refuted, C08_circuit_close_after_failed_refuted.
-   The intended partial theorem
-     C08_oracle_partial : legal8 ops = true -> stream_close_after_gone ops = false ->
-                          circuit_close_after_failed ops = false -> ... oracle8 ops tr = true
-   is NOT proved.  What is proved, for ALL legal histories (any events, snapshots, listener schedules, waits
-   at any position, acknowledgements in any order relative to the events; unbounded):
-     - C08_notifications_exact: the notification clause of the oracle, in full, also inside the finding classes;
-     - C08_waits_once: no wait id is ever reported done twice (and only requested ids are reported);
-     - C08_close_waits_for_event: a close wait never succeeds while its object is still listed in
-       TorState.circuits / TorState.streams (= before Tor reported it CLOSED/FAILED, by C07), whichever of
-       acknowledgement and event comes first;
-   and, for all legal histories WITHOUT close requests (hypothesis no_close, wider than the complement of the
-   finding classes), the whole oracle: C08_oracle_no_close_partial (notifications, when_built succeeds iff
-   BUILT is reached and fails at the CLOSED/FAILED that comes first, when_closed, exactly-once).
-   Missing: that a close wait outside the finding classes DOES complete by max(acknowledgement, event)
-   (only exercised by the correspondence runs). *)
+   It covers, for any events, snapshots, listener schedules, when_built / when_closed / close requests at any
+   position and acknowledgements (250 or 552) in any order relative to the events, unbounded: no operation
+   raises; every listener registered on the object hears exactly the expected calls; when_built succeeds iff
+   BUILT is reached and fails at the CLOSED/FAILED that comes first; when_closed; a close wait completes
+   exactly once, not before the object is gone, and by the later of acknowledgement and event (at once when
+   the object is already gone); a refused close command fails its wait.
+   The former findings C08-F1 / C08-F2 are repaired in /repo (ce7627d, b4f1a1d); their witnesses stay as
+   regression anchors: C08_stream_close_after_gone_now_accepted, C08_circuit_close_after_failed_now_accepted.
+   Kept as separately readable consequences / model-level facts: C08_notifications_exact, C08_waits_once,
+   C08_done_only_if_requested, C08_close_waits_for_event. *)
 From Coq Require Import List Bool Arith NArith.
 From TxVerif Require Import Lib.Bytes Lib.NList Spec.C07 Spec.C08 Model.State Model.StateNotify
-  Proofs.C08Proofs Proofs.C08Refine Proofs.C08Waits Proofs.C08Close.
+  Proofs.C08Proofs Proofs.C08Refine Proofs.C08Waits Proofs.C08Close Proofs.C08Full.
 Import ListNotations.
 Open Scope N_scope.
+
+(* the property: on every legal history the model runs without raising and its trace satisfies the whole oracle *)
+Theorem C08_oracle : forall rts ops, legal8 ops = true ->
+  exists tr, xrun rts ops = Some tr /\ oracle8 ops tr = true.
+Proof. exact oracle_all. Qed.
+Print Assumptions C08_oracle.
 
 (* every listener registered on the object at that moment (global before / after the object appeared,
    local, minus removed ones) hears exactly the expected calls, in order, with Tor's flags in both cases;
@@ -55,22 +53,19 @@ Theorem C08_close_waits_for_event : forall rts ops, legal8 ops = true -> close_s
 Proof. exact close_waits_for_event. Qed.
 Print Assumptions C08_close_waits_for_event.
 
-Theorem C08_oracle_no_close_partial : forall rts ops, legal8 ops = true -> no_close ops = true ->
-  exists tr, xrun rts ops = Some tr /\ oracle8 ops tr = true.
-Proof. exact oracle_no_close. Qed.
-Print Assumptions C08_oracle_no_close_partial.
+(* regression anchors: the witnesses of the repaired findings C08-F1 / C08-F2 are accepted now *)
+Theorem C08_stream_close_after_gone_now_accepted :
+  legal8 wit_F1 = true /\ xrun [] wit_F1 = Some [[]; []; [NDone 1 (WOkS 0)]; []] /\
+  oracle8 wit_F1 [[]; []; [NDone 1 (WOkS 0)]; []] = true.
+Proof. exact stream_close_after_gone_now_accepted. Qed.
+Print Assumptions C08_stream_close_after_gone_now_accepted.
 
-Theorem C08_stream_close_after_gone_refuted :
-  exists ops tr, legal8 ops = true /\ stream_close_after_gone ops = true /\ circuit_close_after_failed ops = false /\
-                 xrun [] ops = Some tr /\ oracle8 ops tr = false.
-Proof. exact stream_close_after_gone_refuted. Qed.
-Print Assumptions C08_stream_close_after_gone_refuted.
-
-Theorem C08_circuit_close_after_failed_refuted :
-  exists ops tr, legal8 ops = true /\ circuit_close_after_failed ops = true /\ stream_close_after_gone ops = false /\
-                 xrun [] ops = Some tr /\ oracle8 ops tr = false.
-Proof. exact circuit_close_after_failed_refuted. Qed.
-Print Assumptions C08_circuit_close_after_failed_refuted.
+Theorem C08_circuit_close_after_failed_now_accepted :
+  legal8 wit_F2 = true /\
+  xrun [] wit_F2 = Some [[]; [NCmd 0 1]; []; [NDone 2 WOkNone]; [NDone 1 WOkNone]; []] /\
+  oracle8 wit_F2 [[]; [NCmd 0 1]; []; [NDone 2 WOkNone]; [NDone 1 WOkNone]; []] = true.
+Proof. exact circuit_close_after_failed_now_accepted. Qed.
+Print Assumptions C08_circuit_close_after_failed_now_accepted.
 
 (* the hypotheses are satisfiable by a non-trivial history: a global listener, a wait for BUILT requested
    before the circuit is built, a close requested and acknowledged BEFORE Tor reports the circuit closed *)
@@ -78,7 +73,7 @@ Example C08_nonvacuous :
   let ops := [OAddCL 1; OEv (ECirc 5 CLaunched [] [(0, 0)]); OWhenBuilt 0 7;
               OEv (ECirc 5 CBuilt [{| h_rid := 2; h_nick := 0 |}] []); OCClose 0 8; OAck;
               OEv (ECirc 5 CClosed [] [(2, 3)])] in
-  legal8 ops = true /\ stream_close_after_gone ops = false /\ circuit_close_after_failed ops = false /\
+  legal8 ops = true /\
   xrun [] ops = Some [[]; [NCirc 1 0 0 0 []; NCirc 1 1 0 0 []]; [];
                       [NCirc 1 2 0 2 []; NCirc 1 3 0 0 []; NDone 7 (WOkC 0)]; [NCmd 0 5]; [];
                       [NDone 8 (WOkC 0); NCirc 1 4 0 0 [(2, 3); (102, 3)]]] /\
